@@ -16,6 +16,12 @@ Proof.
 Qed.
 Print Assumptions c05_listing_steps.
 
+(* a renamed directory takes everything below it along, unchanged: what was listed at p/t is listed at the new name/t *)
+Theorem c05_rename_directory : forall pr s p n f, lookup (files s) p = Some f -> f_isdir f = true -> snd (step pr s (Rename p n)) = Accepted ->
+  forall t, vlookup (fst (step pr s (Rename p n))) ((parent p ++ [n]) ++ t) = vlookup s (p ++ t).
+Proof. exact rename_moves_tree. Qed.
+Print Assumptions c05_rename_directory.
+
 (* storing to an existing name or renaming onto an existing name is refused *)
 Theorem c05_dup_refused : forall pr s,
   (forall p idx, lookup (files s) p <> None -> snd (step pr s (Put p idx)) = Refused)
